@@ -579,7 +579,6 @@ func Subst(s *Sym, m map[ssa.Value]*Sym) *Sym {
 	return &cp
 }
 
-
 // structCellValue: a local struct cell that receives exactly one whole-value
 // store and no field stores (a spilled parameter or call result).
 func (fi *FuncInfo) structCellValue(cell ssa.Value) ssa.Value {
@@ -797,7 +796,6 @@ func substRoot(path, r, nr *Sym) *Sym {
 	cp.Args[0] = substRoot(path.Args[0], r, nr)
 	return &cp
 }
-
 
 // closureWritesFreeVar: does fn (or a closure nested in it that re-captures the
 // variable) store to its i-th free variable?
